@@ -51,7 +51,7 @@ SPECS = {
                                cached='all-subsets', reqs='subsets', busts=(False, True), sample=12000)),
         title='at most one execution/load per distinct task, only inside the needed closure, load iff cached'),
     'C04': dict(
-        invs=['A_C04_Workers', 'A_C04_Type'], props=[],
+        invs=['A_C04_Workers', 'A_C04_Type'], props=[], wide=True,
         fam=dict(quick=[dict(n=3, ntypes=2, maxpars=(1, 2, UNL), maxws=(1, 2, 3), backends=('fork', 'serial'),
                              cached='none', reqs='roots', fails='singles', sample=2500),
                         dict(n=4, ntypes=1, maxpars=(2,), maxws=(3, 4), backends=('fork',), cached='none',
@@ -62,7 +62,7 @@ SPECS = {
                                 reqs='roots', max_edges=2, must=True)]),
         title='|slot| <= max_workers and per-type count <= max_parallel in every state'),
     'C05': dict(
-        invs=['A_C05_AtRest'], props=[],
+        invs=['A_C05_AtRest'], props=[], wide=True,
         fam=dict(quick=[dict(n=3, ntypes=2, maxpars=(1, 2, UNL), maxws=(1, 2, 3), backends=('fork', 'serial'),
                              cached='none', reqs='roots', fails='singles', sample=2500),
                         dict(n=4, ntypes=1, maxpars=(2,), maxws=(3, 4), backends=('fork',), cached='none',
@@ -262,6 +262,14 @@ def run(prop: str, tier: str) -> int:
         tp['r2'] = round(time.time() - t1, 1)
         t1 = time.time()
         rjobs = make_real_jobs(prop, sample, scheds, seed, sim['real'] * spec.get('real_scale', 1), spec)
+        if spec.get('wide'):
+            # max_workers=None means the CPU count: more independent tasks than CPUs, real processes, default worker count
+            import os
+            ncpu = os.cpu_count() or 4
+            nw = ncpu + 4
+            for k, backend in enumerate(('fork', 'spawn')[:1 if tier == 'quick' else 2]):
+                wide = families.mk(nw, [[] for _ in range(nw)], [1] * nw, [UNL], [True], [], list(range(1, nw + 1)), backend, ncpu)
+                rjobs.append({'id': f'{prop}-w{k}', 'cfg': wide, 'actions': [], 'shape_seed': 0, 'maxw_none': True})
         if spec.get('real_jobfn'):
             for j in rjobs:
                 spec['real_jobfn'](j, jrnd)
